@@ -260,6 +260,79 @@ theorem C01_reject_arity_after_prefix (alg : AtomAlg A) (lit : List Char → A) 
   have := solve_arity_after alg lit hn e hwf hl pre post hpre hpost hadj u hu c Ts hne hb hk j rest
   simpa [List.append_assoc] using this
 
+/-! Missing right operand at a GENERAL position: inside the argument of a one-argument call or
+    inside parentheses (`F1` includes the plain parenthesis), the call being at the start of the
+    string or after any well-formed prefix.  The nested solver that evaluates the argument raises,
+    and the error propagates through the argument loop and the tokeniser of the outer `solve`. -/
+
+/-- (D, token level) every operator except `!` -- binary-only or `+`/`-` -- dangling after a
+    well-formed expression is rejected (`C01_reject_missing_operand` and
+    `C01_reject_trailing_sign` in one statement over the operator items of the tokeniser). -/
+theorem C01_reject_trailing_operator (alg : AtomAlg A) (lit : List Char → A) (hn : NegNeg alg)
+    (e : E) (hwf : e.WF) (o : OprK) (ho : o ≠ .not) :
+    solveToks dflt alg dfltSteps (toks dflt alg lit e ++ [tokOf alg lit (.opr o)])
+      = .error "operand" := by
+  cases o with
+  | not => exact absurd rfl ho
+  | sign s => exact C01_reject_trailing_sign alg lit hn e hwf s
+  | bin b =>
+    by_cases hb : b.level = 4
+    · cases b <;> first | (exact absurd hb (by decide)) | skip
+      · exact C01_reject_trailing_sign alg lit hn e hwf false
+      · exact C01_reject_trailing_sign alg lit hn e hwf true
+    · exact C01_reject_missing_operand alg lit hn e hwf b hb
+
+/-- (D, string level, general position) **A dangling operator inside parentheses or inside a
+    one-argument call at the start of the string is rejected**: `f( e' o ) rest` with `f` any of
+    `( exp( log( log10( sqrt( sin( cos( tan(`, `e'` well-formed, `o` any operator but `!`, blanks
+    anywhere, arbitrary `rest`. -/
+theorem C01_reject_missing_operand_in_call (alg : AtomAlg A) (lit : List Char → A)
+    (hn : NegNeg alg) (f : F1) (e' : E) (hwf' : e'.WF) (hl' : LitOK alg lit e') (o : OprK)
+    (ho : o ≠ .not) (v : List Char) (hv : Pre (lexemes e' ++ [o.sym]) v)
+    (j k : Nat) (rest : List Char) :
+    solve dflt alg dfltSteps (blanks j ++ f.sym ++ v ++ blanks k ++ ')' :: rest)
+      = .error "operand" := by
+  have := solve_inner_err alg lit hn [] trivial [] Pre.nil f j rest e' hwf' hl' o v k hv "operand"
+    (C01_reject_trailing_operator alg lit hn e' hwf' o ho) (fun _ h => by cases h)
+  simpa [List.append_assoc] using this
+
+/-- (D, string level, general position) **… and after any well-formed prefix**: `e o1 f( e' o ) rest`
+    (prefix: a well-formed expression framed by operator symbols, as in
+    `C01_reject_arity_after_prefix`; e.g. `1 + 2 * ( 3 - ) …`). -/
+theorem C01_reject_missing_operand_in_call_after_prefix (alg : AtomAlg A) (lit : List Char → A)
+    (hn : NegNeg alg) (e : E) (hwf : e.WF) (hl : LitOK alg lit e)
+    (pre post : List LItem) (hpre : OprOnly pre) (hpost : OprOnly post)
+    (hadj : Adj (pre ++ items e ++ post)) (u : List Char)
+    (hu : Pre ((pre ++ items e ++ post).flatMap itemLex) u)
+    (f : F1) (e' : E) (hwf' : e'.WF) (hl' : LitOK alg lit e') (o : OprK)
+    (ho : o ≠ .not) (v : List Char) (hv : Pre (lexemes e' ++ [o.sym]) v)
+    (j k : Nat) (rest : List Char) :
+    solve dflt alg dfltSteps (u ++ blanks j ++ f.sym ++ v ++ blanks k ++ ')' :: rest)
+      = .error "operand" := by
+  have hlen : (lexemes e).length ≤ u.length := by
+    have h1 := Pre.length_le hu (fun x hx => by
+      simp only [List.flatMap_append, List.mem_append, List.mem_flatMap] at hx
+      rcases hx with (⟨it, hit, hx⟩ | ⟨it, hit, hx⟩) | ⟨it, hit, hx⟩
+      · exact oprLex_ne_nil it (hpre it hit) x hx
+      · have : x ∈ lexemes e := by rw [lexemes_items]; exact List.mem_flatMap.mpr ⟨it, hit, hx⟩
+        exact (lexemes_good alg lit e hl x this).1
+      · exact oprLex_ne_nil it (hpost it hit) x hx)
+    have h2 : (lexemes e).length ≤ ((pre ++ items e ++ post).flatMap itemLex).length := by
+      rw [lexemes_items]; simp; omega
+    omega
+  have hcd := cdepth_le_lexemes e
+  have := solve_inner_err alg lit hn _ hadj u hu f j rest e' hwf' hl' o v k hv "operand"
+    (C01_reject_trailing_operator alg lit hn e' hwf' o ho) (fun it hit => by
+      have hargs := args_of_depth alg lit hn e hwf hl
+        (u ++ (blanks j ++ (f.sym ++ ((v ++ blanks k) ++ ')' :: rest)))).length
+        (by simp only [List.length_append]; omega)
+      simp only [List.mem_append] at hit
+      rcases hit with (hit | hit) | hit
+      · exact itemOK_opr alg lit _ it (hpre it hit)
+      · exact itemOK_items alg lit _ e hl hargs it hit
+      · exact itemOK_opr alg lit _ it (hpost it hit))
+  simpa [List.append_assoc] using this
+
 /-- The full statement (character level): for every well-formed expression whose literals the
     atom class reads, and every blank oracle, `solve` on the rendered text returns `eval e`. -/
 def C01_solve_eq_eval_statement : Prop :=
@@ -370,6 +443,14 @@ example : solve dflt intAlg dfltSteps
     ⟨by decide, rfl⟩ (.bin .mul) _
     (by simpa [blanks, lexemes, B2.sym, OprK.sym] using Pre.cons 0 ['1'] (Pre.cons 1 ['*'] Pre.nil))
     (.f1 .sin) [['1'], ['2']] (by simp) (by decide) (by decide) 1 ['+', '7']
+
+/-- `( 1 *) +7` is rejected with "operand" (instance of `C01_reject_missing_operand_in_call`) -/
+example : solve dflt intAlg dfltSteps
+    (blanks 0 ++ F1.par.sym ++ ['1', ' ', '*'] ++ blanks 0 ++ ')' :: ['+', '7']) = .error "operand" :=
+  C01_reject_missing_operand_in_call intAlg litInt (fun a => Int.neg_neg a) .par (.num ['1']) trivial
+    ⟨by decide, rfl⟩ (.bin .mul) (by simp) _
+    (by simpa [blanks, lexemes, B2.sym, OprK.sym] using Pre.cons 0 ['1'] (Pre.cons 1 ['*'] Pre.nil))
+    0 0 ['+', '7']
 
 example : ¬ Balanced ['(', '1'] := by unfold Balanced; decide
 example : ¬ Balanced ['1', ')', '('] := by unfold Balanced; decide
